@@ -1,6 +1,7 @@
 CONSTANTS
   Alphabet = {}
   MaxLen = 0
+  LemmaLen = 0
   ZoneWhatIf = FALSE
   Emit = FALSE
   NoIndentRule = FALSE
